@@ -110,6 +110,8 @@ def gen_goal_spec(g, rnd, allow_maxsmt=True, strategy="linear"):
     for _ in range(n):
         w = rnd.randint(1, 4) if (strategy == "binary" or rnd.random() < 0.6) else Fraction(rnd.randint(1, 7), 2)
         soft.append((g.term(BOOL, 2), w))
+    if rnd.random() < 0.3:
+        soft.append(rnd.choice(soft))            # the same soft clause (and weight) stated twice counts twice
     return ("maxsmt", tuple(soft), False)
 
 
